@@ -21,6 +21,7 @@ DOM = {
 FALSY = {'D': 0.0, 'I': 0, 'S': 0.0, 'C': ''}
 TRUTHY = {'D': 1.5, 'I': 2, 'S': 1.0, 'C': 'a'}
 PARENT_VAL = {'I': 2, 'S': 1.0, 'C': 'a'}
+PARENT_VAL2 = {'I': 3, 'S': 2.0, 'C': 'b'}
 
 
 def build_param(c):
@@ -41,6 +42,10 @@ def build_param(c):
       g = vz.ParameterConfig.factory('g', bounds=(0.0, 1.0), default_value=0.0)
       child = vz.ParameterConfig.factory('c1', feasible_values=['a', 'b'], children=[(['a'], g)])
     children = [([PARENT_VAL[c['kind']]], child)]
+    if c['depth'] == 4:
+      # one child entry that is active under two parent values (the route protos with multi-valued conditions take)
+      child = vz.ParameterConfig.factory('c1', bounds=(0.0, 1.0))
+      children = [([PARENT_VAL[c['kind']], PARENT_VAL2[c['kind']]], child)]
   return vz.ParameterConfig.factory('x', children=children, **kw)
 
 
@@ -65,7 +70,12 @@ def project_param(pc, c):
   kids = pc.child_parameter_configs
   if kids:
     depth = 2
-    if len(kids) != 1 or kids[0].name != 'c1' or list(kids[0].matching_parent_values) != [PARENT_VAL[c['kind']]]:
+    if c['depth'] == 4:
+      # the child must be active under exactly the two parent values (one entry with both values, or one entry per value)
+      pv = sorted(v for k in kids if k.name == 'c1' for v in k.matching_parent_values)
+      ok = all(k.name == 'c1' and not k.child_parameter_configs for k in kids) and pv == sorted([PARENT_VAL[c['kind']], PARENT_VAL2[c['kind']]])
+      depth = 4 if ok else -4
+    elif len(kids) != 1 or kids[0].name != 'c1' or list(kids[0].matching_parent_values) != [PARENT_VAL[c['kind']]]:
       depth = -2
     elif kids[0].child_parameter_configs:
       gk = kids[0].child_parameter_configs
@@ -202,6 +212,8 @@ def build_trial(c):
     t.metadata['k'] = ''
   elif c['meta'] == 'ns':
     t.metadata.ns('a:b')['k'] = 'v'
+  elif c['meta'] == 'ns_empty_first':
+    t.metadata.abs_ns(vz.Namespace(('', 'tuner')))['k'] = 'v'
   return t
 
 
@@ -241,6 +253,8 @@ def project_trial(t, c):
     out['meta'] = 'str'
   elif md == {('', 'k'): ''}:
     out['meta'] = 'empty_str'
+  elif md == {('::tuner', 'k'): 'v'} and tuple(next(iter(ns for ns, _, _ in t.metadata.all_items()))) == ('', 'tuner'):
+    out['meta'] = 'ns_empty_first'
   elif md == {(':a\\:b', 'k'): 'v'}:
     out['meta'] = 'ns'
   else:
